@@ -32,8 +32,8 @@ def run(tier, seed):
     univ = vf.emit_scenarios(wd, "MC_Cascade.tla", "MC_Cascade_emit.cfg", minimum=50000, timeout=900)
     strata = {}
     for s in univ:
-        strata.setdefault((s["chosen"], s["allowed"], s["s"]["kind"], s["s"]["big"]), []).append(s)
-    per = 7 if quick else 150
+        strata.setdefault((s["chosen"], s["allowed"], s["s"]["kind"], s["s"]["big"], s["s"]["flat"], s["near"]), []).append(s)
+    per = 3 if quick else 60
     chosen = []
     for key in sorted(strata, key=str):
         chosen += rnd.sample(strata[key], min(per, len(strata[key])))
